@@ -466,7 +466,7 @@ func c13PQ(c *mon.Ctx) {
 		cases = append(cases, pqCase{class, a, b})
 	}
 	// expensive classes first (better packing on the worker pool)
-	for i := 0; i < c.N(24, 6000); i++ {
+	for i := 0; i < c.N(24, 12000); i++ {
 		add("balanced-32x32", randPrimeIn(r, 1<<31, pqSqrtLimit), randPrimeIn(r, 1<<31, pqSqrtLimit))
 	}
 	var top []uint64
@@ -495,7 +495,7 @@ func c13PQ(c *mon.Ctx) {
 		}
 		add("square", p, p)
 	}
-	for i := 0; i < c.N(150, 20000); i++ {
+	for i := 0; i < c.N(150, 30000); i++ {
 		a := 2 + r.IntN(30)
 		b := a + r.IntN(63-2*a+1)
 		add("mixed", randPrimeBits(r, a), randPrimeBits(r, b))
